@@ -287,6 +287,10 @@ func (app *App) addPrefixToRoute(prefix string, route *Route) *Route {
 	route.Path = prefixedPath
 	route.path = RemoveEscapeChar(prettyPath)
 	route.routeParser = parseRoute(prettyPath, app.customConstraints...)
+	if n := len(route.routeParser.segs); app.config.StrictRouting && n > 0 && !route.routeParser.segs[n-1].IsParam {
+		// Strict routing: the slash that ends the pattern is not optional (as in register)
+		route.routeParser.segs[n-1].HasOptionalSlash = false
+	}
 	// The prefix may carry parameters of its own: the names are those of the whole path
 	route.Params = parseRoute(prefixedPath, app.customConstraints...).params
 	route.root = route.path == "/"
